@@ -4,8 +4,14 @@ import PysnarkModel.Model.Prog
 
 A history is a tree of events: entering a region through the `guarded()` wrapper (which restores
 on both exits), entering through a bare `add_guard`/`restore_guard` pair (what the statement-based
-block API does: no unwinding), a `try/except` that catches whatever propagates, raising, and
+block API does: no unwinding), RE-ENTERING the decorator object of the innermost enclosing
+`guarded()` region while it is active (recursion of a decorated function, or one decorator object
+shared by caller and callee), a `try/except` that catches whatever propagates, raising, and
 traced operations.  `exec` returns the final state and whether an exception is propagating.
+
+`execEv`/`execList` carry the stack of the condition OBJECTS (as model values) of the enclosing
+`guarded()` regions, innermost first: a re-entry runs `add_guard` on the very same condition object
+(no new witness is allocated for it), takes its own backup and restores it on both exits.
 -/
 namespace Pysnark
 
@@ -14,6 +20,11 @@ inductive Ev
   | guarded (kind : Kind) (c : Int) (body : List Ev)
   /-- `bak = add_guard(cond); body; restore_guard(bak)` without try/finally -/
   | raw (kind : Kind) (c : Int) (body : List Ev)
+  /-- the decorator object of the innermost enclosing `guarded(cond)` region is activated again while
+  it is active: `f = guarded(cond)(fn)` where `fn` calls `f` (recursion), or `dec = guarded(cond)`
+  decorating both a caller and its callee.  Same condition object; `add_guard(cond)` runs again.
+  Outside every `guarded()` region there is no such decorator: the body just runs. -/
+  | reenter (body : List Ev)
   /-- `try: body  except BaseException: pass` -/
   | tryCatch (body : List Ev)
   /-- `raise SomeException` -/
@@ -47,48 +58,60 @@ def condFailSt (kind : Kind) (c : Int) (s : St) : St :=
   | _ => s
 
 mutual
-/-- returns (state, exception propagating?) -/
-def execEv : Ev → St → St × Bool
-  | .guarded kind c body, s =>
+/-- returns (state, exception propagating?); `stk` = condition objects of the enclosing `guarded()`
+regions, innermost first -/
+def execEv : Ev → List Val → St → St × Bool
+  | .guarded kind c body, stk, s =>
     match mkCond kind c s with
     | .error _ => (condFailSt kind c s, true)
     | .ok (cv, s1) =>
       match addGuard cv s1 with
       | .error _ => (s1, true)                      -- add_guard raised before anything was installed
       | .ok (bak, s2) =>
-        let (s3, exc) := execList body s2
+        let (s3, exc) := execList body (cv :: stk) s2
         -- `try: ret = fn(); restore_guard(bak)  except: restore_guard(bak); raise`
         ({ s3 with guard := bak.guard, ignoreErrors := bak.ignoreErrors, one := bak.one }, exc)
-  | .raw kind c body, s =>
+  | .raw kind c body, stk, s =>
     match mkCond kind c s with
     | .error _ => (condFailSt kind c s, true)
     | .ok (cv, s1) =>
       match addGuard cv s1 with
       | .error _ => (s1, true)
       | .ok (bak, s2) =>
-        let (s3, exc) := execList body s2
+        let (s3, exc) := execList body stk s2       -- not a decorator: the innermost one stays the same
         if exc then (s3, true)                      -- no unwinding: the guard stays installed
         else ({ s3 with guard := bak.guard, ignoreErrors := bak.ignoreErrors, one := bak.one }, false)
-  | .tryCatch body, s => ((execList body s).1, false)
-  | .raise, s => (s, true)
-  | .opLt a b, s =>
+  | .reenter body, stk, s =>
+    match stk with
+    | [] => execList body [] s
+    | cv :: rest =>
+      -- the same `__guarded` wrapper runs again: `bak = add_guard(cond)` with the SAME cond object,
+      -- a backup local to this activation, restored on both exits
+      match addGuard cv s with
+      | .error _ => (s, true)
+      | .ok (bak, s2) =>
+        let (s3, exc) := execList body (cv :: rest) s2
+        ({ s3 with guard := bak.guard, ignoreErrors := bak.ignoreErrors, one := bak.one }, exc)
+  | .tryCatch body, stk, s => ((execList body stk s).1, false)
+  | .raise, _, s => (s, true)
+  | .opLt a b, _, s =>
     -- the two operands are recorded before the comparison can raise (it raises in its hint, before allocating)
     let s1 : St := { s with priv := s.priv ++ [a] }
     let s2 : St := { s1 with priv := s1.priv ++ [b] }
     match ltLL ⟨a, [(Wire.priv s.priv.length, 1)]⟩ ⟨b, [(Wire.priv s1.priv.length, 1)]⟩ s2 with
     | .ok (_, s') => (s', false)
     | .error _ => (s2, true)
-  | .opAssertZero a, s =>
+  | .opAssertZero a, _, s =>
     let s1 : St := { s with priv := s.priv ++ [a] }
     match assertZero ⟨a, [(Wire.priv s.priv.length, 1)]⟩ s1 with
     | .ok (_, s') => (s', false)
     | .error _ => (s1, true)
 
-def execList : List Ev → St → St × Bool
-  | [], s => (s, false)
-  | e :: es, s =>
-    let (s1, exc) := execEv e s
-    if exc then (s1, true) else execList es s1
+def execList : List Ev → List Val → St → St × Bool
+  | [], _, s => (s, false)
+  | e :: es, stk, s =>
+    let (s1, exc) := execEv e stk s
+    if exc then (s1, true) else execList es stk s1
 end
 
 -- histories in which every region is entered through the `guarded()` wrapper
@@ -96,6 +119,7 @@ mutual
 def Ev.wrapped : Ev → Bool
   | .guarded _ _ body => wrappedList body
   | .raw _ _ _ => false
+  | .reenter body => wrappedList body
   | .tryCatch body => wrappedList body
   | _ => true
 def wrappedList : List Ev → Bool
